@@ -52,6 +52,9 @@ type World struct {
 	Gen       datamodel.Node
 	Large     datamodel.Node
 	Sel       selector.Selector
+	SelLimA   selector.Selector // depth-limited recursion, the edge before the matcher, under explore-all
+	SelLimF   selector.Selector // depth-limited recursion, the edge after the matcher, under explore-fields
+	Deep      datamodel.Node    // deeper than the limits
 	SelSpec   datamodel.Node
 	CfgUnset  *traversal.Config
 	CfgSet    *traversal.Config
@@ -84,6 +87,9 @@ func NewWorld() *World {
 	w.Large = basicnode.NewBytesFromReader(bytes.NewReader([]byte("large bytes content")))
 	w.SelSpec = ref.Basic(trav.Rec(-1, trav.Un(trav.M(), trav.All(trav.Edge()))).Spec())
 	w.Sel, _ = selector.CompileSelector(w.SelSpec)
+	w.SelLimA, _ = trav.Rec(2, trav.All(trav.Un(trav.Edge(), trav.M()))).Compile()
+	w.SelLimF, _ = trav.Rec(1, trav.Fld(trav.F1("a", trav.Un(trav.M(), trav.Edge())), trav.F1("b", trav.M()))).Compile()
+	w.Deep = ref.Basic(deepComb(5, false))
 	// a pre-filled, then read-only, store of each kind
 	w.MemStore = &memstore.Store{}
 	ls := cidlink.DefaultLinkSystem()
@@ -117,7 +123,7 @@ func NewWorld() *World {
 func (w *World) Shared() map[string]interface{} {
 	return map[string]interface{}{
 		"basic-node": w.Basic, "bindnode-node": w.Bind, "generated-node": w.Gen, "reader-backed-bytes-node": w.Large,
-		"compiled-selector": w.Sel, "config-unset": w.CfgUnset, "config-set": w.CfgSet, "type-system": w.TS,
+		"compiled-selector": w.Sel, "compiled-selector-limited-all": w.SelLimA, "compiled-selector-limited-fields": w.SelLimF, "config-unset": w.CfgUnset, "config-set": w.CfgSet, "type-system": w.TS,
 		"bindnode-prototype": w.BindProto, "link-system": w.LS, "memstore": w.MemStore, "cidlink-memory": w.CidMem,
 		"bindnode.defaultTypeSystem": bindnode.VerifDefaultTypeSystem(), "multicodec.DefaultRegistry": &multicodec.DefaultRegistry,
 	}
@@ -185,6 +191,8 @@ func Ops() []Op {
 		{"encode-generated-repr", func(w *World) string { return encode(w.Gen.(schema.TypedNode).Representation(), false) }},
 		{"walk-config-unset", func(w *World) string { return walk(w.CfgUnset, w.Root, w.Sel) }},
 		{"walk-config-set", func(w *World) string { return walk(w.CfgSet, w.Root, w.Sel) }},
+		{"walk-limited-recursion-under-all", func(w *World) string { return walk(w.CfgSet, w.Deep, w.SelLimA) }},
+		{"walk-limited-recursion-under-fields", func(w *World) string { return walk(w.CfgSet, w.Deep, w.SelLimF) }},
 		{"walk-matching-default-config", func(w *World) string {
 			n := 0
 			err := traversal.WalkMatching(w.Basic, w.Sel, func(traversal.Progress, datamodel.Node) error { n++; return nil })
